@@ -3,8 +3,8 @@ package props
 import (
 	"fmt"
 	"go/token"
-	"sort"
 	"math/big"
+	"sort"
 	"strings"
 
 	"gcv/internal/an"
@@ -420,6 +420,9 @@ func checkC04(r *core.Run) {
 	// the block's flags are those of its height also on the reorganisation / re-apply paths (shared with C06)
 	c06FlagsAfterHeight(r, p, "R-C04-scripts")
 	c04TrustPerTx(r, p, ct)
+	// the maturity test reads the coinbase flag and height of the spent record: both must survive a disconnect, so the
+	// undo record collected here has to carry every field of the spent record (rule shared with C06)
+	c06UndoRecord(r, p, "R-C04-inputs")
 	c04DeleteBatches(r, p)
 	// subsidy schedule
 	if gr := p.Func("lib/btc.GetBlockReward"); gr != nil {
